@@ -19,7 +19,7 @@ from . import common as C
 PROP = "C15"
 PREAMBLE = ("From Coq Require Import ZArith List.\nFrom HV Require Import lib.Obs model.ShutdownSeq.\nImport ListNotations.\nOpen Scope Z_scope.\n"
             "Definition run_seq (c : Z * Z * list Z * Z) : val := let '(G, T, ds, ls) := c in VZ (serve_return G T ds ls).\n")
-SLACK = 0.25       # scheduling slack allowed on real time, seconds
+SLACK = 0.6        # scheduling slack allowed on real time, seconds (the checks may run on a loaded machine)
 
 
 def scenario(backend, G, durations, kinds=None, lifespan_delay=0.0, S=1.0):
@@ -146,7 +146,7 @@ def judge(obs, S=1.0):
     else:
         if obs["returned"] > G + S + SLACK:
             fail("shutdown-unbounded", returned=obs["returned"])
-        if obs["returned"] > expected + SLACK + 0.25:
+        if obs["returned"] > expected + SLACK:
             fail("shutdown-later-than-needed", returned=obs["returned"], expected=expected)
         if obs["returned"] < expected - 0.05:
             fail("shutdown-before-grace-period-over", returned=obs["returned"], expected=expected)
@@ -332,7 +332,7 @@ def run(ctx):
             err = out[-2000:]
         else:
             for m, v in zip(metas, vals):
-                if abs(m["returned"] - v / 1000.0) > SLACK + 0.3:
+                if abs(m["returned"] - v / 1000.0) > SLACK:
                     disagreements.append({"case": m, "model_ms": v})
     dist = {"scenarios": len(descs)}
     for d in descs:
